@@ -64,6 +64,7 @@ type Contract struct {
 	ClosureEnsures map[int][]*Clause // "closure N ensures P": P holds at every exit of the N-th literal's body (old() = the state the body was entered in); implies `closure N checked`
 	ClosureChecked map[int]bool    // "closure N checked": the N-th function literal's body is executed (free arguments, havocked heap) so that call-site obligations and safety obligations apply inside it
 	ClosureAccepts map[int]*Clause // "closure N accepts P": whenever the N-th function literal returns a nil error, P holds of its arguments
+	PanicsWhen *Clause      // "panics when P": every explicit panic of the body is reached only in states satisfying P (instead of "unreachable")
 	PreAssigns []*PreAssign // "preassign T.f :: P": every assignment in the body to field f of a T is made only in states satisfying P (evaluated before the store)
 	PreCalls []*PreCall // call-site obligations: every call of a matching callee is made only when the condition holds (dominance)
 	EnsuresLocal []*Clause // postconditions that may mention top-level local variables (their value at the return)
@@ -122,7 +123,7 @@ type Lemma struct {
 var clauseKeywords = map[string]bool{
 	"func": true, "props": true, "safety": true, "requires": true, "ensures": true,
 	"modifies": true, "loop": true, "trusted": true, "pure": true, "opaque": true, "ghost": true,
-	"global": true, "lemma": true, "assumes": true, "import": true, "note": true, "cases": true, "end": true, "trustframe": true, "ensures-local": true, "defines": true, "precall": true, "preassign": true, "closure": true, "iface": true, "init": true, "nowrite": true, "onlyhere": true, "assume-pre": true, "stable": true, "bodyonly": true, "ensures-trusted": true,
+	"global": true, "lemma": true, "assumes": true, "import": true, "note": true, "cases": true, "end": true, "trustframe": true, "ensures-local": true, "defines": true, "precall": true, "preassign": true, "panics": true, "closure": true, "iface": true, "init": true, "nowrite": true, "onlyhere": true, "assume-pre": true, "stable": true, "bodyonly": true, "ensures-trusted": true,
 }
 
 var funcKeyRe = regexp.MustCompile(`^(?:\(\s*\*?\s*(\w+)\s*\)\s*\.\s*(\w+)|(\w+)\s*\.\s*(\w+)|(\w+))`)
@@ -337,6 +338,13 @@ func parseSpecFile(path, relDir string) (*PkgSpec, error) {
 					cur.ClosureAccepts = map[int]*Clause{}
 				}
 				cur.ClosureAccepts[n] = c
+			case "panics":
+				if !strings.HasPrefix(strings.TrimSpace(it.text), "when ") {
+					return nil, fmt.Errorf("%s:%d: panics clause must be `panics when <condition>`", path, it.line)
+				}
+				c := mk("ensures", strings.TrimSpace(strings.TrimPrefix(strings.TrimSpace(it.text), "when ")), it.line, 0)
+				c.Label = "panicswhen"
+				cur.PanicsWhen = c
 			case "preassign":
 				parts := strings.SplitN(it.text, "::", 2)
 				tf := strings.SplitN(strings.TrimSpace(parts[0]), ".", 2)
@@ -596,7 +604,7 @@ var builtinRename = map[string]string{
 	"mapLen": "gh_mapLen", "allocated": "gh_allocated", "pureOf": "gh_pureOf",
 	"uf": "gh_uf", "ufb": "gh_ufb", "ufr": "gh_ufr", "seqOf": "gh_seqOf", "wrote": "gh_wrote", "div": "gh_div", "mod": "gh_mod",
 	"sameElems": "gh_sameElems", "abs": "gh_abs", "min": "gh_min", "max": "gh_max",
-	"count": "gh_count", "sum": "gh_sum", "upd": "gh_upd", "hdr": "gh_hdr", "kvDomain": "gh_kvDomain", "kvState": "gh_kvState", "kvHas": "gh_kvHas", "kvVal": "gh_kvVal", "kvWrites": "gh_kvWrites", "bytesId": "gh_bytesId", "keyId": "gh_keyId", "keyOf": "gh_keyOf", "sameRef": "gh_sameRef", "defined": "gh_defined", "argIs": "gh_argIs", "argc": "gh_argc", "argAs": "gh_argAs", "btHas": "gh_btHas", "btNil": "gh_btNil", "btBytes": "gh_btBytes", "arrOf": "gh_arrOf", "ordDet": "gh_ordDet", "anyOf": "gh_anyOf", "unavail": "gh_unavail", "errIs": "gh_errIs", "mapEq": "gh_mapEq", "emptyMap": "gh_emptyMap",
+	"count": "gh_count", "sum": "gh_sum", "upd": "gh_upd", "hdr": "gh_hdr", "kvDomain": "gh_kvDomain", "kvState": "gh_kvState", "kvHas": "gh_kvHas", "kvVal": "gh_kvVal", "kvWrites": "gh_kvWrites", "bytesId": "gh_bytesId", "keyId": "gh_keyId", "keyOf": "gh_keyOf", "sameRef": "gh_sameRef", "defined": "gh_defined", "argIs": "gh_argIs", "argc": "gh_argc", "argAs": "gh_argAs", "btHas": "gh_btHas", "btNil": "gh_btNil", "btBytes": "gh_btBytes", "arrOf": "gh_arrOf", "ordDet": "gh_ordDet", "anyOf": "gh_anyOf", "unavail": "gh_unavail", "errIs": "gh_errIs", "mapEq": "gh_mapEq", "emptyMap": "gh_emptyMap", "chanSends": "gh_chanSends",
 }
 
 var identCallRe = regexp.MustCompile(`\b([A-Za-z_]\w*)\s*\(`)
@@ -685,6 +693,7 @@ func gh_kvState() int                     { return 0 }
 func gh_kvHas(k int) bool                 { return false }
 func gh_kvVal(k int) int                  { return 0 }
 func gh_kvWrites() int                    { return 0 }
+func gh_chanSends() int                   { return 0 }
 func gh_bytesId(b []byte) int             { return 0 }
 func gh_keyId(b []byte) int               { return 0 }
 func gh_keyOf(kf any, args ...any) int    { return 0 }
